@@ -46,4 +46,20 @@ def tablesA (zero : α) (rows : Nat) (C : Nat → Nat → α) (mode : Nat) : Tab
 /-- `optimalPartition(cost_matrix, mode)` on arrays -/
 def optimalPartitionA (zero : α) (rows : Nat) (C : Nat → Nat → α) (mode : Nat) : List Nat :=
   backward (mget 0 (tablesA zero rows C mode).M) (rows - 1)
+
+/-- `findStopsGlobalPy` with the dynamic programme run on arrays (what the driver runs; `Props/C12.lean`,
+`find_stops_array_form`: equal to `findStopsGlobalPy`). Returns the segmentation too. -/
+def findStopsGlobalPyA [Sub α] [Mul α] (zero one : α) (sq ofNat : Nat → α) (track resampled : List (Fix α))
+    (circ2 circA : Nat → Nat → Option α) (diameter duration downsampling : α) :
+    Except Err (List Nat × List (Nat × Nat) × List (α × α × Nat)) :=
+  let tr := stopsTrack one downsampling track resampled
+  let size := tr.length
+  if size = 0 then .error .value
+  else if size ≤ 2 then .error .index
+  else
+    let f := getFix zero tr
+    let p := stopPredTrack zero f circ2 diameter duration
+    let seg := optimalPartitionA zero size (stopsMatrix zero sq p size) 1
+    let st := ((pairs seg).filter (fun ab => stopKeepTrack zero f circA diameter duration ab.1 (ab.2 - 1))).map (fun ab => (ab.1, ab.2 - 1))
+    .ok (seg, st, st.map (fun ae => (ofNat ae.1 * downsampling, ofNat ae.2 * downsampling, ae.2 + 1 - ae.1)))
 end TV.Partition
